@@ -657,19 +657,23 @@ def shrink(case, want):
     return cur
 
 
-def main(prop, own_codes, gen_params, rule, manifest_trusted, argv=None):
+def main(prop, own_codes, gen_params, rule, manifest_trusted, argv=None, extra=None, extra_targets=()):
+    """extra: callables run as fn(rep, args, rng) before the evidence is written (further kernels of the same
+    property, e.g. harness/genes.py for C02); what they return is stored under coverage[<fn.__module__>_kernel].
+    extra_targets: further .vo files they need."""
     import json
     Impl.strict = (prop == "C03")
     import random
     import time
     args = K.parse_args(argv)
     rep = K.Reporter(prop, args.tier, args.seed)
-    info, broken = K.standard_prelude(prop, rep, extra_targets=EXTRA_TARGETS,
+    info, broken = K.standard_prelude(prop, rep, extra_targets=EXTRA_TARGETS + list(extra_targets),
                                       whitelist=("FunctionalExtensionality.functional_extensionality_dep",))
     rng = random.Random(args.seed)
     t0 = time.time()
     if args.replay:
-        cases = [json.load(open(args.replay))["case"]]
+        data = json.load(open(args.replay))
+        cases = [] if data.get("kernel") else [data["case"]]     # a replay of another kernel is run by `extra`
     else:
         cases = []
         corpus = os.path.join(K.VERIF, "corpus", prop)
@@ -751,7 +755,10 @@ def main(prop, own_codes, gen_params, rule, manifest_trusted, argv=None):
                                    "observation_after_last_op": s, "theorem": "coq/theories/Properties/C02.v"})
                     done6 = True
                     break
-    if broken and rep.violations == 0 and not rep.known:
+    extra_cov = {}
+    for fn in (extra or []):
+        extra_cov[fn.__module__ + "_kernel"] = fn(rep, args, rng)
+    if broken and rep.violations == 0:      # a known finding (genes kernel) must not hide a broken obligation
         rep.violation({"broken": True}, {"broken_obligations": broken,
                       "note": "a proof obligation or the correspondence machinery no longer checks; no failing input found"},
                       no_input=True)
@@ -772,4 +779,5 @@ def main(prop, own_codes, gen_params, rule, manifest_trusted, argv=None):
                         "genes, groups, renames, user constraints, copy/pickle, solver switch are outside the op kernel "
                         "of coq/theories/Core/Model.v"],
     }
+    evidence["coverage"].update(extra_cov)
     return rep.finish(evidence)
